@@ -102,7 +102,8 @@ def path(ctx, cfg):
         ctx.require(got == rec, "edges-are-callback-returns", f"{desc}: network edges {sorted(map(sorted, got))} vs callback returns {sorted(map(sorted, rec))}",
                     twin=(got == rec | {frozenset((N, N + 1))}))
         ok = all(G.nodes[v].get(_jdkey()) is not None and tuple(G.nodes[v].get(_jdkey())) == tuple(r.d[v]) for v in G.nodes())
-        ctx.require(ok, "jds-carried", f"{desc}: vertex annotations differ from the joint degree sequence")
+        ctx.require(ok and sorted(G.nodes()) == list(range(N)), "jds-carried",
+                    f"{desc}: vertices {sorted(G.nodes())} / annotations differ from the joint degree sequence")
         ctx.observe("edges", sorted(sorted(e) for e in got))
         return
     el, tops, mids, jd = gc.edge_list_of(out)
